@@ -30,7 +30,7 @@
     DeployCode flag in {0,1,3} kept as read, string/code limits, total size <= MAX_TX_SIZE. *)
 From Coq Require Import List NArith.
 Import ListNotations.
-From Ont Require Import Lib.Bytes Gen.TxConsts Model.Codec Proofs.Codec Model.TxCodec Proofs.TxCodec.
+From Ont Require Import Lib.Bytes Gen.TxConsts Model.Codec Proofs.Codec Model.TxCodec Proofs.TxCodec Proofs.TxRoundTrip.
 Local Open Scope N_scope.
 
 Definition rlp_canon {etx} (E : ethapi etx) : Prop :=
@@ -146,6 +146,57 @@ Theorem c19_oversize_rejected :
     MAX_TX_SIZE < N.of_nat (length b) -> fst (tx_from_raw_bytes H E b) = inr TOversize.
 Proof. intros H etx E. exact (oversize_rejected H etx E). Qed.
 Print Assumptions c19_oversize_rejected.
+
+(** 6. Converse direction (completeness of the decoder, not required by the property text but it
+    makes 1-3 two-sided). [ont_tx H etx E t] (Proofs/TxCodec.v) is exactly what acceptance
+    establishes of an Ontology-format transaction: version 0, type byte <> EIP155, fields within
+    their widths, payer of ADDR_LEN bytes, payload allowed for the type (DeployCode validated),
+    attribute count 0, at most TX_MAX_SIG_SIZE signature entries, hashes = H u and H (H u).
+    Every such transaction whose encoding fits MAX_TX_SIZE is decoded to itself from its encoding
+    at any position of any buffer. *)
+Theorem c19_encode_decode_roundtrip :
+  forall (H : bytes -> bytes) etx (E : ethapi etx) t pre post,
+    ont_tx H etx E t -> t_raw t = tx_encode E t -> N.of_nat (length (tx_encode E t)) <= MAX_TX_SIZE ->
+    N.of_nat (length (pre ++ tx_encode E t ++ post)) < two64 ->
+    tx_deserialization H E (at_ pre (tx_encode E t) post) = (inl t, after_ pre (tx_encode E t) post).
+Proof. intros H etx E. exact (ont_roundtrip H etx E). Qed.
+Print Assumptions c19_encode_decode_roundtrip.
+
+(** 6'. One transaction per encoding (the writer is injective on accepted transactions). *)
+Theorem c19_tx_encode_injective :
+  forall (H : bytes -> bytes) etx (E : ethapi etx) t1 t2,
+    ont_tx H etx E t1 -> t_raw t1 = tx_encode E t1 -> N.of_nat (length (tx_encode E t1)) <= MAX_TX_SIZE ->
+    ont_tx H etx E t2 -> t_raw t2 = tx_encode E t2 -> N.of_nat (length (tx_encode E t2)) <= MAX_TX_SIZE ->
+    tx_encode E t1 = tx_encode E t2 -> t1 = t2.
+Proof. intros H etx E. exact (tx_encode_injective H etx E). Qed.
+Print Assumptions c19_tx_encode_injective.
+
+(** 7. The hash binds the signed content: equal hashes of accepted Ontology-format transactions
+    mean equal unsigned fields, or a collision of H is exhibited. *)
+Theorem c19_hash_binds_content :
+  forall (H : bytes -> bytes) etx (E : ethapi etx), rlp_canon E ->
+  forall s1 s1' t1 s2 s2' t2, good s1 -> good s2 ->
+    tx_deserialization H E s1 = (inl t1, s1') -> tx_deserialization H E s2 = (inl t2, s2') ->
+    t_type t1 <> TX_EIP155 -> t_type t2 <> TX_EIP155 ->
+    t_hash t1 = t_hash t2 ->
+    (t_version t1 = t_version t2 /\ t_type t1 = t_type t2 /\ t_nonce t1 = t_nonce t2 /\
+     t_gasprice t1 = t_gasprice t2 /\ t_gaslimit t1 = t_gaslimit t2 /\ t_payer t1 = t_payer t2 /\
+     t_payload t1 = t_payload t2) \/
+    exists x y, x <> y /\ H x = H y.
+Proof. intros H etx E C. exact (hash_binds_content H etx E C). Qed.
+Print Assumptions c19_hash_binds_content.
+
+(** 8. Signatures are not covered, existentially: replacing the signature section of an accepted
+    transaction by ANY other one within the limits gives an accepted byte string with the same hash. *)
+Theorem c19_resigned_accepted_same_hash :
+  forall (H : bytes -> bytes) etx (E : ethapi etx) t sigs pre post,
+    ont_tx H etx E t -> N.of_nat (length sigs) <= TX_MAX_SIG_SIZE ->
+    let b := tx_encode_unsigned E t ++ sigs_encode sigs in
+    N.of_nat (length b) <= MAX_TX_SIZE -> N.of_nat (length (pre ++ b ++ post)) < two64 ->
+    exists t', tx_deserialization H E (at_ pre b post) = (inl t', after_ pre b post) /\
+               t_hash t' = t_hash t /\ t_sigs t' = sigs /\ tx_to_array t' = b.
+Proof. intros H etx E. exact (resigned_accepted_same_hash H etx E). Qed.
+Print Assumptions c19_resigned_accepted_same_hash.
 
 (** Non-vacuity: with a concrete hash stand-in and a concrete (canonical) Ethereum API, an invoke
     transaction without signatures and the same transaction with one signature entry are both
